@@ -117,6 +117,23 @@ func observeLevel(l slog.Level) lvlObs {
 	for n := 1; n <= 5; n++ {
 		o.Tags = append(o.Tags, l.ShortTag(n))
 	}
+	// ShortTag(n) is a function of the level and n: the width the coloured format currently prints with does not enter
+	for _, w := range []int{1, 2, 5} {
+		slog.SetLevelOutputWidth(w)
+		for n := 1; n <= 5; n++ {
+			func() {
+				defer func() {
+					if recover() != nil {
+						o.Tags[n-1] = fmt.Sprintf("<ShortTag(%d) panics while the output width is %d>", n, w)
+					}
+				}()
+				if t := l.ShortTag(n); t != o.Tags[n-1] && !strings.HasPrefix(o.Tags[n-1], "<") {
+					o.Tags[n-1] = fmt.Sprintf("<ShortTag(%d) is %q, and %q while the output width is %d>", n, o.Tags[n-1], t, w)
+				}
+			}()
+		}
+	}
+	slog.SetLevelOutputWidth(3)
 	if p, err := slog.ParseLevel(o.Str); err == nil {
 		o.Parse = int(p)
 	}
